@@ -44,6 +44,12 @@ func vhEdgeCommands() [][]string {
 		{"FSET", "fleet", "truck1", "speed", "abc"},
 		{"FSET", "fleet", "truck1", "XX", "speed", "1"},
 		{"FSET", "fleet", "truck1", "speed", "90"},
+		// values that compare equal to what is stored although they are written differently: "no change" (reply 0)
+		{"FSET", "fleet", "truck5", "speed", "0"},
+		{"FSET", "fleet", "truck5", "speed", "-0"},
+		{"FSET", "fleet", "truck5", "rate", "1.50"},
+		{"FSET", "fleet", "truck5", "info.a", "1"},
+		{"FSET", "fleet", "truck5", "nosuchfield", "0"},
 		{"DEL", "fleet", "nosuch"},
 		{"DEL", "nokey", "x"},
 		{"PDEL", "fleet", "zz*"},
@@ -85,9 +91,11 @@ func vhEdgeCommands() [][]string {
 	}
 }
 
-//verif:cfg b_commands=54_edge_cases_of_the_keyspace_commands b_dataset=fixed(points,string,deadline,fields,JSON_document) b_output=RESP|JSON ignorego=1
+//verif:cfg b_commands=59_edge_cases_of_the_keyspace_commands b_dataset=fixed(points,string,deadline,fields,JSON_document) b_output=RESP|JSON ignorego=1
 func VH_C01_errors_change_nothing() {
 	s, _ := vhGateServer()
+	// an object whose fields hold a zero written as 0.0, a number with a trailing zero and a JSON document
+	vhDo(s, "SET", "fleet", "truck5", "FIELD", "speed", "0.0", "FIELD", "rate", "1.5", "FIELD", "info", `{"a":1}`, "POINT", "1", "1")
 	table := vhEdgeCommands()
 	c := table[vchoose(len(table))]
 	outJSON := vnondetBool()
